@@ -100,6 +100,11 @@ func anyID(t *rapid.T, label string) int64 {
 // ResultMsg draws an AbstractResultMessage within the wire limits (msg ≤ 32767 bytes).
 func ResultMsg(t *rapid.T) message.AbstractResultMessage {
 	var r message.AbstractResultMessage
+	if rapid.IntRange(0, 7).Draw(t, "otherCode") == 0 {
+		// every byte value of the enum: codes other than Failed carry no message
+		r.ResultCode = message.ResultCode(rapid.IntRange(2, 255).Draw(t, "code"))
+		return r
+	}
 	if rapid.Bool().Draw(t, "failed") {
 		r.ResultCode = message.ResultCodeFailed
 		r.Msg = WireString(t, "msg", 32767)
